@@ -58,7 +58,8 @@ def gen_case(rng, idx):
             case["generator"] = {"rated": rg, "speed": 1000.0, "curve": comps.gen_accepted_curve(rng, rg, lo=0.9)}
             if rng.random() < 0.4:
                 rr = float(np.round(rg * float(rng.choice([1.0, 1.0, 1.2, 1.5, 2.0])), 0))      # a rectifier is often rated above its generator
-                case["rectifier"] = {"rated": rr, "curve": comps.gen_accepted_curve(rng, rr, lo=0.95)}
+                case["rectifier"] = {"rated": rr, "curve": comps.gen_accepted_curve(rng, rr, lo=0.95),
+                                     "type": str(rng.choice(["RECTIFIER", "RECTIFIER", "ACTIVE_FRONT_END", "POWER_CONVERTER"]))}
             top = rg
             # powers stay inside the load range the generator's and the rectifier's own curves cover
             for st, r_st in ((case["generator"], rg), (case.get("rectifier"), case.get("rectifier", {}).get("rated"))):
